@@ -753,7 +753,12 @@ func (c *FnCtx) loopModified(li *LoopInfo) {
 				other[h], other[v], other[l] = true, true, true
 			case *ssa.Convert:
 				if isString(x.X.Type()) && isSlice(x.Type()) {
-					other[c.elemComp(x.Type().Underlying().(*types.Slice).Elem())] = true
+					// []byte(s) / []rune(s): a fresh array only
+					comp := c.elemComp(x.Type().Underlying().(*types.Slice).Elem())
+					li.mod[comp] = true
+					if _, ok := li.frameRefs[comp]; !ok {
+						li.frameRefs[comp] = nil
+					}
 				}
 			case *ssa.Send:
 				c.chanMods(x.Chan, other)
